@@ -361,12 +361,15 @@ func ruleC14R3(c *Ctx) {
 
 // failureIsNotSuccess: on every path on which the storage call failed, the function must not
 // end by reporting success. Accepted ways to deal with the failure (enumerated from the tree):
-// return a non-nil error; hand the error (or something derived from it) to a channel, to
-// the asynchronous error callback, or to any other call (wrapping, logging, callbacks);
-// store it somewhere; go round a loop again (retry / next candidate: `continue`); or the
+// return a non-nil error (wrapped or not); send the error (or something derived from it) on a
+// channel; store it somewhere; go round a loop again (retry / next candidate: `continue`); or the
 // function has no error result of its own and returns a value that tells failure apart
 // (nil pointer / false). What is rejected: the failing edge joins the success path and the
-// function returns a nil error without the error value having gone anywhere.
+// function returns a nil error without the error value having gone anywhere. Handing the error
+// to a callback or a logger and then returning nil is NOT accepted in a function that has an
+// error result: its caller (the background loop) takes the nil for success, records the round as
+// done and never retries (only the loops themselves, which have no error result, report through
+// the asynchronous callback: C14.R2).
 func (c *Ctx) failureIsNotSuccess(fn *ssa.Function, site ssa.CallInstruction, ev ssa.Value, key, pos string) {
 	ei := errorResultIndex(fn.Signature)
 	if ei < 0 || fn.Parent() != nil {
@@ -380,6 +383,58 @@ func (c *Ctx) failureIsNotSuccess(fn *ssa.Function, site ssa.CallInstruction, ev
 	sei := errorResultIndex(site.Common().Signature())
 	var problems []string
 	isErr := func(y ssa.Value) bool { return y == ev }
+	// going round a loop again after the failure is a way of dealing with it only in a loop that
+	// looks for one success (try the next candidate / try again: the success path leaves the loop).
+	// In a loop that does every item, moving on to the next item after a failure just drops it.
+	searchLoop, inLoop := false, false
+	if h := enclosingLoopHeader(site.Block()); h != nil {
+		loop := naturalLoop(h)
+		searchLoop, inLoop = true, true
+		// can the header be reached again, inside the loop, from the continuation on which the call succeeded?
+		sx := &Explorer{Fn: fn, Keep: map[ssa.Value]bool{ev: true}}
+		sx.Outcomes = func(ci ssa.CallInstruction, st *PState) []Outcome {
+			if ci != site {
+				return nil
+			}
+			okR := make([]Tri, n)
+			if n == 1 {
+				okR = []Tri{TriNo}
+			} else {
+				okR[sei] = TriNo
+			}
+			return []Outcome{{Results: okR}}
+		}
+		sx.EdgeFilter = func(from, to *ssa.BasicBlock, st *PState) bool {
+			if to == h && loop[from] {
+				searchLoop = false
+				return false
+			}
+			return loop[to]
+		}
+		// one exception, by design of the recovery protocol: a snapshot that fails to load is skipped and
+		// the next one is tried, also in the loop that loads all of them in turn (C03.R1 decides that
+		// protocol: open fails only when nothing could be loaded)
+		tolerated := false
+		if callee := site.Common().StaticCallee(); callee != nil && funcInSet(callee, snapshotLoaders(c.Program)) {
+			tolerated = true
+		}
+		if tolerated {
+			// keep searchLoop = true
+		} else if call, ok := site.(*ssa.Call); ok {
+			init := newPState()
+			if n == 1 {
+				init.env[call] = TriNo
+			} else {
+				okR := make([]Tri, n)
+				okR[sei] = TriNo
+				init.tuple[call] = okR
+			}
+			sx.Keep[call] = true
+			sx.RunAfter(call, init)
+		} else {
+			searchLoop = false
+		}
+	}
 	ex := &Explorer{Fn: fn, Keep: map[ssa.Value]bool{ev: true}}
 	ex.Outcomes = func(ci ssa.CallInstruction, st *PState) []Outcome {
 		if ci != site {
@@ -391,7 +446,11 @@ func (c *Ctx) failureIsNotSuccess(fn *ssa.Function, site ssa.CallInstruction, ev
 		} else {
 			okR[sei], badR[sei] = TriNo, TriYes
 		}
-		return []Outcome{{Results: okR, Flags: st.Flags &^ (fFailed | fDealt), Replace: true}, {Results: badR, Flags: st.Flags&^fDealt | fFailed, Replace: true}}
+		okFlags := st.Flags &^ (fFailed | fDealt)
+		if inLoop && !searchLoop {
+			okFlags = st.Flags // a later item's success does not make up for an earlier item's failure
+		}
+		return []Outcome{{Results: okR, Flags: okFlags, Replace: true}, {Results: badR, Flags: st.Flags&^fDealt | fFailed, Replace: true}}
 	}
 	ex.OnInstr = func(in ssa.Instruction, st *PState) bool {
 		if st.Flags&fFailed == 0 || in == site.(ssa.Instruction) {
@@ -403,21 +462,16 @@ func (c *Ctx) failureIsNotSuccess(fn *ssa.Function, site ssa.CallInstruction, ev
 				st.Flags |= fDealt
 			}
 		case *ssa.Store:
-			if _, isCell := x.Addr.(*ssa.Alloc); !isCell && dependsOn(x.Val, isErr) {
+			// into a field or element of something that outlives the call (not a local cell, not the
+			// argument array of a variadic call)
+			if _, isLocal := addrRoot(x.Addr).(*ssa.Alloc); !isLocal && dependsOn(x.Val, isErr) {
 				st.Flags |= fDealt
-			}
-		case ssa.CallInstruction:
-			for _, a := range x.Common().Args {
-				if dependsOn(a, isErr) {
-					st.Flags |= fDealt
-				}
 			}
 		}
 		return true
 	}
 	ex.OnEdge = func(from, to *ssa.BasicBlock, st *PState) {
-		// going round a loop again after the failure: retry / next candidate
-		if st.Flags&fFailed != 0 {
+		if st.Flags&fFailed != 0 && searchLoop {
 			if h := enclosingLoopHeader(site.Block()); h != nil && to == h && naturalLoop(h)[from] {
 				st.Flags |= fDealt
 			}
